@@ -142,6 +142,22 @@ func (db *DB) reconstructSSTables() error {
 		// do not rely on the order of the FS, we do an additional sort to make sure we start reading from 0000 to 9999
 		sort.Strings(tablePaths)
 		for _, p := range tablePaths {
+			// a process killed while a memstore was flushed leaves a table directory behind that is not complete yet.
+			// The metadata file is written last (in one piece), so without it the flush never finished - and the WAL that
+			// still holds the same mutations was therefore never removed. Such a leftover is dropped, not loaded.
+			complete, err := isCompleteSSTable(p)
+			if err != nil {
+				return err
+			}
+			if !complete {
+				log.Printf("found incomplete sstable to be deleted in %v", p)
+				err = os.RemoveAll(p)
+				if err != nil {
+					return err
+				}
+				continue
+			}
+
 			suffix := filepath.Base(p)[len(SSTablePrefix)+1:]
 			i, err := strconv.ParseUint(suffix, 10, 64)
 			if err != nil {
@@ -166,6 +182,17 @@ func (db *DB) reconstructSSTables() error {
 	}
 
 	return nil
+}
+
+func isCompleteSSTable(tablePath string) (bool, error) {
+	info, err := os.Stat(filepath.Join(tablePath, sstables.MetaFileName))
+	if err != nil {
+		if os.IsNotExist(err) {
+			return false, nil
+		}
+		return false, err
+	}
+	return info.Size() > 0, nil
 }
 
 func (db *DB) replayAndSetupWriteAheadLog() error {
